@@ -7,8 +7,10 @@ OUT=seeded/RESULTS.tsv
 echo -e "seed\ttier\texit\tviolation keys" > $OUT
 for d in seeded/C*-*; do
   id=$(basename $d); prop=${id%-*}
+  rm -f /tmp/mut.$prop.log
   MUT_LINES=0 tools/mut.sh $d/patch.diff $prop $TIER > /tmp/sweep.$id.log 2>&1
   rc=$(grep -o "mut: exit=[0-9]*" /tmp/sweep.$id.log | cut -d= -f2)
+  [ -z "$rc" ] && rc="patch-does-not-apply"
   keys=$(grep -A1 "^VIOLATION" /tmp/mut.$prop.log | grep "key:" | sed 's/ *key: //' | sort -u | head -6 | tr '\n' ' ')
   echo -e "$id\t$TIER\t$rc\t$keys" >> $OUT
   echo "$id exit=$rc $keys"
